@@ -46,7 +46,40 @@ func enumerateImages(trace []eng.FOp, r *eng.Rng, killOnly bool, perPoint int, m
 		for i := 0; i < len(pts); i += st {
 			np = append(np, pts[i])
 		}
+		// always keep the first two operations after each state marker: the
+		// window right after a round / close / revert reported completion
+		keep := map[int]bool{}
+		for _, x := range np {
+			keep[x] = true
+		}
+		for i, op := range trace {
+			if op.Kind != "mark" {
+				continue
+			}
+			n := 0
+			for j := i + 1; j < len(trace) && n < 2; j++ {
+				switch trace[j].Kind {
+				case "write", "sync", "create", "unlink", "close":
+					keep[j] = true
+					n++
+				}
+			}
+		}
+		np = np[:0]
+		for x := range keep {
+			np = append(np, x)
+		}
+		sort.Ints(np)
 		pts = np
+	}
+	// crash points between a completed revert and the next write
+	afterRevert := map[int]bool{}
+	for i, op := range trace {
+		if op.Kind == "mark" && strings.Contains(op.Note, "revert") {
+			for j := i + 1; j < len(trace) && trace[j].Kind != "write" && trace[j].Kind != "create"; j++ {
+				afterRevert[j] = true
+			}
+		}
 	}
 	var out []eng.CrashImage
 	for _, p := range pts {
@@ -69,6 +102,12 @@ func enumerateImages(trace []eng.FOp, r *eng.Rng, killOnly bool, perPoint int, m
 			}
 		}
 		if killOnly {
+			// SnapshotRevert promises durability by itself, whatever the
+			// collection's NoSync setting: right after a revert completed the
+			// power-loss view (only synced content) must show it as well.
+			if afterRevert[p] {
+				out = append(out, eng.CrashImage{Point: p, Torn: -1, Kind: "none-after-revert"})
+			}
 			continue
 		}
 		out = append(out, eng.CrashImage{Point: p, Torn: -1, Kind: "none"})
@@ -353,6 +392,13 @@ func genC05Program(r *eng.Rng, th bool) *eng.Program {
 		gp.FirstWide = 200 + r.Intn(300)
 		gp.MaxBatches = 8
 	}
+	withRevert := !gp.Lean && r.Chance(1, 3)
+	if withRevert {
+		// history (and so a revert target other than the current state)
+		// only exists while no compaction rewrites the file
+		cfg.Concern = 0
+		gp.Idle = false
+	}
 	p := eng.GenProgram(r, "C05", cfg, gp)
 	// make sure the data gets persisted, with a caught-up reopen in the middle sometimes
 	var steps []eng.Step
@@ -364,7 +410,7 @@ func genC05Program(r *eng.Rng, th bool) *eng.Program {
 		if i == len(p.Steps)/2 && r.Chance(1, 3) {
 			steps = append(steps, eng.Step{K: "reopen", A: "caughtup"})
 		}
-		if s.K == "batch" && i > 2 && r.Chance(1, 8) {
+		if withRevert && s.K == "batch" && i > 3 && r.Chance(1, 3) {
 			steps = append(steps, eng.Step{K: "merge", A: "plain"}, eng.Step{K: "persist"}, eng.Step{K: "revert", N: 1 + r.Intn(3)})
 		}
 	}
@@ -406,6 +452,24 @@ func init() {
 			}
 			killOnly := p.Cfg.NoSync
 			images := enumerateImages(trace, rg, killOnly, perPoint, maxPoints)
+			if c.Verbose {
+				for i, op := range trace {
+					if op.Kind == "mark" && strings.Contains(op.Note, "revert") {
+						fmt.Printf("trace %d nosync=%v revert mark at %d:", idx, killOnly, i)
+						for j := i - 3; j < i+8 && j < len(trace); j++ {
+							if j >= 0 {
+								fmt.Printf(" [%d %s %s %d+%d %s]", j, trace[j].Kind, trace[j].Name, trace[j].Off, trace[j].Len, trace[j].Note)
+							}
+						}
+						fmt.Println()
+						for _, im := range images {
+							if im.Point > i && im.Point < i+6 {
+								fmt.Printf("   image point=%d kind=%s\n", im.Point, im.Kind)
+							}
+						}
+					}
+				}
+			}
 			sr.Counters["traces"]++
 			sr.Counters["trace.ops"] += int64(len(trace))
 			sr.Counters["crash.states_marked"] += int64(len(marks))
